@@ -163,6 +163,11 @@ def impl_final(case, o):
     return fin, direct, t
 
 
+def exit_detail(fin):
+    got = split_final(fin)["exit"]
+    return f"exit-code[{got}]" if got.startswith("esc") else "exit-code[wrong code returned]"
+
+
 def split_final(fin):
     return dict(tok.split("=", 1) for tok in fin.split(" "))
 
@@ -346,6 +351,9 @@ def simplifications(c):
         d = dict(c)
         del d["how"]
         yield d
+    for p in POINTS:  # canonical position of a fault: main
+        if p != "main" and c[p] != "ok" and c["main"] == "ok":
+            yield {**c, p: "ok", "main": c[p]}
     for p in POINTS:
         if c[p].startswith("exit:") and c[p] not in ("exit:3",):
             yield {**c, p: "exit:3"}
@@ -390,6 +398,8 @@ def run(ctx):
             if i in (0, 7, 40, 100):
                 ctx.sample({"case": describe(c), "impl": fin, "model": mod})
             for cl in clauses:
+                if cl == "exit-code":  # tell the ways of getting the code wrong apart
+                    cl = exit_detail(fin)
                 groups.setdefault(("spec", cl), []).append(i)
             for dn in direct:
                 groups.setdefault(("direct", dn), []).append(i)
@@ -401,7 +411,8 @@ def run(ctx):
         for (gk, name), idxs in sorted(groups.items()):
             start = min((cases[i] for i in idxs), key=complexity)
             if gk == "spec":
-                pred = lambda r, name=name: name in r[2]  # noqa: E731
+                pred = lambda r, name=name: (name in r[2]) or (  # noqa: E731
+                    name.startswith("exit-code[") and "exit-code" in r[2] and exit_detail(r[0]) == name)
             elif gk == "direct":
                 pred = lambda r, name=name: name in r[3]  # noqa: E731
             else:
